@@ -1,27 +1,148 @@
-"""C15 -- traversal visits every node once, in order; filter and find agree with it (engine K)."""
-import ksupport
+"""C15 -- traversal visits every node once, in order; filter and find agree with it.
+
+Engine T: event-trace symbolic execution of the MIR of src/traverse.rs (closures, slice iterators and `?` modelled; the tree is
+symbolic: enum discriminants and vector lengths are z3 integers the executor forks on).
+  STEP    inductive step of each recursive type walker (`visit_type`), recursive calls replaced by the induction hypothesis
+          -> the type order / exactly-once / stop-at-Break result holds for types of ANY nesting depth;
+  OUTER   walk_symbols_with_control_flow on every tree within the width bounds x 3 filter levels, with that summary;
+  DEEP    the same walkers with nothing summarised, types nested to depth 2 in each type position (independent of code shape);
+  find_symbol / filter_symbols / walk_types / walk_types_mut / walk_methods / walk_args on top.
+Counterexamples are confirmed by native sweeps over generated documents.
+"""
+import re
+import time
+
+import mir
 import native
+import travcheck as tc
 from common import src_line
 
 LEVEL = 'model_checking'
-SPECS = [
-    ('c15::c15_symbols_interface_return_d2', 'walk_symbols(All) on an interface whose return type has any of the 25 shapes of depth <= 2: exactly the source-order pre-order', 'quick', ['c15']),
-    ('c15::c15_symbols_interface_arg_const', 'argument type (depth 2) and constant type (depth 1) symbolic', 'quick', ['c15']),
-    ('c15::c15_symbols_parcelable_d2', 'parcelable: field type depth 2, constant type depth 1', 'quick', ['c15']),
-    ('c15::c15_levels', 'item kind x filter level: coarser levels are the sub-sequences item / item + members', 'quick', ['c15']),
-    ('c15::c15_find_and_filter', 'find_symbol = first match in visit order for every node incl. the package, None when nothing matches; filter_symbols = the matches', 'quick', ['c15', 'c16']),
-    ('c15::c15_find_levels', 'find_symbol at the three levels', 'quick', ['c15', 'c16']),
-    ('c15::c15_walk_types_methods_args', 'walk_types / walk_methods / walk_args on an interface', 'quick', ['c15']),
-    ('c15::c15_walk_types_parcelable', 'walk_types on a parcelable', 'thorough', ['c15']),
-    ('c15::c15_symbols_spine_d3', 'depth-3 spines', 'thorough', ['c15']),
-]
 
 
-def check(run):
-    run.functions += ['traverse::walk_symbols_with_control_flow / walk_symbols / filter_symbols / find_symbol (%s)' % src_line('src/traverse.rs', 'fn walk_symbols_with_control_flow'),
-                      'traverse::walk_types / walk_methods / walk_args', 'Symbol::get_range']
-    run.bounds += ['trees: package, one import, item of each kind, <= 2 members, <= 1 argument; type shapes: all 25 of depth <= 2, depth-3 spines (thorough); unwind 4-5']
-    run.outside += ['trees with more members/arguments than the harness trees', 'two deep siblings at depth 3']
-    run.assumptions += ['node identity = symbol-range offset (all distinct in the harness trees); the expected order is produced by the tree builder']
-    run.extra['explanation'] = 'Kani/CBMC over the real walkers with symbolic tree shape, level and predicate index; native sweep on generated documents (369 symbols, 90 lookups) confirms.'
-    ksupport.decide(run, 'C15', SPECS, {'c15': native.sweep_c15, 'c16': native.sweep_c16})
+def role_of(err):
+    if 'continued after a Break' in err or 'went on after the predicate held' in err:
+        m = re.search(r"\('(\w+)'", err)
+        return 'break-ignored:%s' % (m.group(1) if m else '?')
+    if "predicate held at ('Package'" in err:
+        return 'break-ignored:Package'
+    m = re.search(r"(?:first missing|reference order has|missing) \[?\('(?:Type|node)', \(?'([^']*)'", err)
+    if m and m.group(1).count('[') >= 3:
+        return 'nested-types-not-visited'
+    if 'type nodes offered' in err or 'types offered' in err:
+        return 'nested-types-not-visited' if re.search(r"\[\d+\]\.\d+\[\d+\]\.\d+\[\d+\]", err) else 'type-walk-order'
+    if 'children of the node were never iterated' in err:
+        return 'children-not-visited'
+    return 'traversal-order'
+
+
+def report(run, title, ok, detail, native_bad, **kw):
+    if ok:
+        run.holds(title, 'T', **kw)
+        return
+    roles = {}
+    for d in detail:
+        roles.setdefault(role_of(d), []).append(d)
+    for role, ds in roles.items():
+        if 'vacuity' in ds[0]:
+            run.inconclusive(title, 'T', ds[0], **kw)
+            continue
+        run.violated(title, 'T', role, {'paths': len(ds), 'examples': ds[:3], 'native': native_bad[:2]}, bool(native_bad), detail=ds[0][:300], **kw)
+
+
+ALL = ('step_symbols', 'step_types', 'step_types_mut', 'outer_symbols', 'deep_symbols', 'deep_types', 'deep_types_mut', 'outer_types', 'outer_types_mut', 'find', 'filter', 'methods_args')
+
+
+def check(run, which=ALL, native_bad=None):
+    S = tc.Setup()
+    sub = which != ALL
+    if not sub:
+        run.functions += ['traverse::walk_symbols_with_control_flow and its closures (%s)' % src_line('src/traverse.rs', 'fn walk_symbols_with_control_flow'),
+                          'traverse::walk_symbols / filter_symbols / find_symbol', 'traverse::walk_types / walk_types_mut / walk_methods / walk_args and their visit_type helpers']
+        run.extra['explanation'] = ('Event-trace symbolic execution of the traversal MIR with inductive summaries for the recursive type walker; z3 decides path feasibility and supplies the tree of '
+                                    'each path; native sweeps confirm counterexamples.')
+        n15, bad15 = native.sweep_c15()
+        n16, bad16 = native.sweep_c16()
+        run.validated += n15 + n16
+        run.extra['native_sweeps'] = {'c15': {'cases': n15, 'discrepancies': len(bad15)}, 'c16': {'cases': n16, 'discrepancies': len(bad16)}}
+        nat = bad15 + bad16
+    else:
+        nat = native_bad or []
+    run.bounds += ['engine T STEP: any nesting depth (induction), 0..3 generic parameters per type', 'engine T OUTER: imports, members, arguments <= 2, all item kinds and member kinds, 3 filter levels',
+                   'engine T DEEP: one member, one argument, types nested to depth 2 (2 parameters, each with <= 1 parameter) in each of the 4 type positions']
+    run.outside += ['trees wider than the bounds (the walkers treat all elements of a vector alike: slice iterators)', 'std: slice::Iter, Iterator::{next, for_each, try_for_each}, ControlFlow as Try are modelled, not executed']
+    run.assumptions += ['derive(PartialEq) on TypeKind: equality with the unit variant Array is equality of discriminants',
+                        'model of std iterators: elements in index order, try_for_each stops at the first Break and returns it']
+    npaths = 0
+    t0 = time.time()
+    tasks = task_list(S, which)
+    import multiprocessing as mp
+    global _S
+    _S = S
+    with mp.Pool(min(12, len(tasks))) as pool:
+        results = pool.map(run_task, tasks)
+    for (kind, args, title, bound), (status, ok, n, detail) in zip(tasks, results):
+        if status == 'na':
+            run.extra.setdefault('not_applicable_to_code_shape', []).append('%s: %s' % (title, detail))
+            continue
+        if status == 'unsupported':
+            run.inconclusive(title, 'T', detail)
+            continue
+        npaths += n
+        report(run, title, ok, detail, nat, queries=n, bound=bound)
+    run.states += npaths
+    run.transitions += npaths
+    run.extra['engine_T_seconds'] = round(time.time() - t0, 1)
+    if not sub and nat and not any(o.status == 'violated' or o.status == 'inconclusive' for o in run.obls):
+        run.inconclusive('native sweeps', 'replay', 'native discrepancy not explained by a solver verdict: %s' % str(nat[0])[:300])
+
+
+_S = None
+
+
+def task_list(S, which):
+    names = {'step_symbols': 'walk_symbols_with_control_flow::visit_type', 'step_types': 'walk_types::visit_type', 'step_types_mut': 'walk_types_mut::visit_type'}
+    have = {k: any(f.name.endswith(n) for f in S.prog.fns) for k, n in names.items()}
+    T = []
+    for k, n in names.items():
+        if k in which:
+            T.append(('step', (n, k == 'step_symbols'), 'STEP %s: [children.., node] for arrays / [node, children..] otherwise, stop at the first Break (any depth by induction)' % n, '0..3 children, any depth'))
+    if 'outer_symbols' in which and have['step_symbols']:
+        T.append(('outer_symbols', (), 'OUTER walk_symbols_with_control_flow: reference pre-order at all 3 levels, Break stops the walk and is returned', 'widths <= 2'))
+    for fname in tc.focuses(S):
+        if 'deep_symbols' in which:
+            T.append(('deep_symbols', (fname,), 'DEEP walk_symbols: %s nested to depth 2, nothing summarised' % fname, 'depth 2'))
+        if 'deep_types' in which:
+            T.append(('deep_types', ('walk_types', fname), 'DEEP walk_types: %s nested to depth 2: every type node exactly once, in source order' % fname, 'depth 2'))
+        if 'deep_types_mut' in which:
+            T.append(('deep_types', ('walk_types_mut', fname), 'DEEP walk_types_mut: %s nested to depth 2: every type node exactly once' % fname, 'depth 2'))
+    if 'outer_types' in which and have['step_types']:
+        T.append(('outer_types', ('walk_types',), 'OUTER walk_types: every member type in source order', 'widths <= 2'))
+    if 'outer_types_mut' in which and have['step_types_mut']:
+        T.append(('outer_types', ('walk_types_mut',), 'OUTER walk_types_mut: every member type offered', 'widths <= 2'))
+    if 'find' in which:
+        T.append(('derived_find', (), 'find_symbol returns the first symbol in visit order satisfying the predicate (the package included), None if none', 'widths <= 2, 3 levels'))
+    if 'filter' in which:
+        T.append(('derived_filter', (1,), 'filter_symbols returns exactly the visited symbols satisfying the predicate, in visit order', 'widths <= 1, 3 levels'))
+    if 'methods_args' in which:
+        for fn in ('walk_methods', 'walk_args'):
+            T.append(('outer_methods_args', (fn,), '%s yields every %s of an interface in source order and nothing else' % (fn, 'method' if fn == 'walk_methods' else '(method, argument) pair'), 'widths <= 2'))
+    return T
+
+
+def run_task(task):
+    kind, args, title, bound = task
+    S = _S
+    try:
+        if kind == 'step':
+            try:
+                ok, n, detail = tc.step_obligation(S, *args)
+            except mir.Unsupported as e:
+                if 'candidates' in str(e):
+                    return ('na', True, 0, str(e))
+                raise
+            return ('ok', ok, n, detail)
+        r = getattr(tc, kind)(S, *args)
+        return ('ok', r[0], r[1], r[-1])
+    except mir.Unsupported as e:
+        return ('unsupported', False, 0, str(e))
